@@ -15,7 +15,7 @@
                           inserted amplifier only touches fibres and ROADMs (none next to Fused / Transceiver)
      RunPadded pad r      a span that starts with a fibre and ends with a non-Raman fibre, without Raman fibre,
                           has loss >= pad *)
-From Verif Require Import Prelude Model.Chain Proofs.Chain Proofs.ChainNames Proofs.ChainSplit.
+From Verif Require Import Prelude Model.Chain Proofs.Chain Proofs.ChainNames Proofs.ChainSplit Gen.ChainGen Proofs.ChainGen.
 From Coq Require Import QArith Permutation Lia.
 Open Scope Z_scope.
 
@@ -188,3 +188,92 @@ Example C08_ex_reach : exists ls', design_net w_cfg [ex_line; mkLine Roadm "B" 1
 Proof. exact ex_reach. Qed.
 Example C08_ex_names_safe : NoDup (names (l_els ex_line)) /\ Forall safe (names (l_els ex_line)).
 Proof. exact ex_names_safe. Qed.
+
+(* ---- translator tie (harness/pygen_c08.py): the definitions g_* of Gen/ChainGen.v are re-generated on every run from
+   the source of gnpy/core/network.py; each equals the corresponding part of the model.  Vocabulary (Gen/ChainGen.v,
+   Proofs/ChainGen.v): nkind / isinst = the classes the source tests with isinstance (a RamanFiber is a Fiber);
+   kind_of e = the class of a chain element; succ_kind / succ_name l = class / uid of what follows the source ROADM (the
+   first element, or the far end of an empty line), pred_kind / pred_name l likewise before the destination ROADM;
+   next_kind kend t = class of the successor of an element followed by t (kend = the far end after the last). ---- *)
+Theorem C08_source_calculate_new_length : forall L mn mx tg, g_calc_len L mn mx tg = calc_len L mn mx tg.
+Proof. exact gen_calc_len. Qed.
+Print Assumptions C08_source_calculate_new_length.
+
+Theorem C08_source_span_bounds : forall c, g_min_length c = c_min c /\ g_target_length c = c_target c.
+Proof. exact gen_bounds. Qed.
+Print Assumptions C08_source_span_bounds.
+
+(* split_fiber: the model's split_fib is calculate_new_length, the source's "single span" test and, otherwise, spans
+   numbered from 0 with the source's uid, each a plain Fiber with the parameters of the original *)
+Theorem C08_source_split_fiber : forall c f,
+  split_fib c f =
+  let* ln := g_calc_len (f_len f) (g_min_length c) (c_max c) (g_target_length c) in
+  let '(len, n) := ln in
+  if g_split_single n then Ok [Fib f]
+  else if lumped_inside f len then
+    Ok (map (fun span => Fib (mkFib (g_split_uid (f_name f) span n) false len (f_lc f) (f_cin f) (f_cout f) (f_att f)
+                                    (f_lumped f))) (zrange 0 n))
+  else Err "NetworkTopologyError:lumped loss outside the new span".
+Proof. exact gen_split_fib. Qed.
+Print Assumptions C08_source_split_fiber.
+
+Theorem C08_source_booster : forall l, l_sk l = Roadm ->
+  add_booster l =
+  if g_booster_wanted (succ_kind l) then
+    let* _ := kind_check (l_els l) in
+    Ok (with_els l (new_amp (g_booster_uid (l_src l) (succ_name l))
+                            (g_booster_multi (has_kind true (l_els l)) (has_kind false (l_els l)) (l_bands l)) :: l_els l))
+  else Ok l.
+Proof. exact gen_booster. Qed.
+Print Assumptions C08_source_booster.
+
+Theorem C08_source_preamp : forall l, l_dk l = Roadm ->
+  add_preamp l =
+  if g_preamp_wanted (pred_kind l) then
+    let* _ := kind_check (l_els l) in
+    Ok (with_els l (l_els l ++ [new_amp (g_preamp_uid (l_dst l) (pred_name l))
+                                        (g_preamp_multi (has_kind true (l_els l)) (has_kind false (l_els l)))]))
+  else Ok l.
+Proof. exact gen_preamp. Qed.
+Print Assumptions C08_source_preamp.
+
+Theorem C08_source_inline : forall kend e t, kend = KRoadm \/ kend = KTrx ->
+  add_inline (e :: t) =
+  let* t' := add_inline t in
+  if is_fib e && g_inline_wanted (next_kind kend t) then
+    let* _ := kind_check t in
+    Ok (e :: new_amp (g_inline_uid (el_name e)) (g_inline_multi (has_kind true t) (has_kind false t)) :: t')
+  else Ok (e :: t').
+Proof. exact gen_inline. Qed.
+Print Assumptions C08_source_inline.
+
+Theorem C08_source_connector_loss : forall c f kend t, kend = KRoadm \/ kend = KTrx ->
+  conn_fib c f (next_is_fus t) =
+  mkFib (f_name f) (f_raman f) (f_len f) (f_lc f) (Some (g_conn_in c (f_cin f)))
+        (Some (g_conn_out c (f_cout f) (next_kind kend t))) (f_att f) (f_lumped f).
+Proof. intros c f kend t H. rewrite (gen_next_is_fus kend t H). apply gen_conn_fib. Qed.
+Print Assumptions C08_source_connector_loss.
+
+Theorem C08_source_padding : forall c g t f, last (Fib g :: t) dflt = Fib f -> f_raman f = false ->
+  pad_run c (Fib g :: t) =
+  Ok (if g_pad_needed (c_pad c) (span_sl c (Fib g :: t))
+      then bump (Fib g) (g_pad_incr (c_pad c) (span_sl c (Fib g :: t))) :: t
+      else Fib g :: t).
+Proof. exact gen_pad_run. Qed.
+Print Assumptions C08_source_padding.
+Theorem C08_source_padding_att_in : forall att pad sl, (g_pad_att att pad sl == att + g_pad_incr pad sl)%Q.
+Proof. exact gen_pad_att. Qed.
+Print Assumptions C08_source_padding_att_in.
+
+(* non-vacuity: the generated functions on the example line (ROADM A -> f1 ... f4 -> ROADM B) and on a 200 km fibre *)
+Example C08_ex_source_split : g_calc_len (qz 200000) (g_min_length w_cfg) (c_max w_cfg) (g_target_length w_cfg)
+                              = Ok ((qz 200000 / qz 2)%Q, 2) /\ g_split_uid "f1" 0 2 = "f1_(1/2)"%string.
+Proof. split; vm_compute; reflexivity. Qed.
+Example C08_ex_source_ends : l_sk ex_line = Roadm /\ l_dk ex_line = Roadm /\
+  g_booster_wanted (succ_kind ex_line) = true /\ g_preamp_wanted (pred_kind ex_line) = true /\
+  g_booster_wanted KRaman = true /\ g_preamp_wanted KRaman = true /\ g_inline_wanted KRaman = true /\
+  g_booster_wanted KFused = false /\ g_inline_wanted KRoadm = false.
+Proof. repeat split; reflexivity. Qed.
+Example C08_ex_source_padding : exists g t f, last (Fib g :: t) dflt = Fib f /\ f_raman f = false /\
+  g_pad_needed (c_pad w_cfg) (span_sl w_cfg (Fib g :: t)) = true.
+Proof. exists (w_fib "f" 5 []), [], (w_fib "f" 5 []). repeat split; vm_compute; reflexivity. Qed.
